@@ -173,8 +173,12 @@ def job_api(j):
         vio.setdefault(key, []).append(dict(key=key, clause=key.split('/')[0].split(':')[1],
                                             replay=dict(part='api', cfg=cfg, transport=transport, seed=seed),
                                             detail=dict(sensor=sid, cause=cause, fill=k, model=cfg['tag'], rated=cfg['power'])))
-    for k in range(FILLS):
+    # (the last pass repeats one fill with the library's logging at its default level instead of DEBUG)
+    for k in list(range(FILLS)) + ['default-logging']:
         world.reset()
+        world.set_debug_logging(k != 'default-logging')
+        if k == 'default-logging':
+            k = 2
         r = make_rig(cfg, transport, fill=api_fill(k, seed))
         inv = r.inv
         if fam == 'ES':
@@ -214,6 +218,7 @@ def job_api(j):
             df = compare(s, got, ref)
             if df:
                 bad(f'api:documented-reading/{fam}/{tname(s)}', s.id_, f'{s.id_} @{s.offset} = {own.hex()}: {df}', k)
+    world.set_debug_logging(True)
     # single reads through both entry points, in both orders, on one object: read_sensor(id) / read_setting(id) report the
     # documented reading of THAT item's registers (ids may name a sensor and a setting at different addresses)
     if cfg.get('singles'):
